@@ -7,7 +7,7 @@ TRUSTED = ['translator gen/gen_threads.py (56 table rows as exact decimals, shap
            'vertex-bound oracle props/partoracles.py on implementation meshes (exploration)']
 ASSUMPTIONS = ['stdlib real-number axioms for the minor-diameter formula', 'sizes near i32::MAX are covered by the theorem only (the Rust loop would decrement ~2^31 times)']
 def run(ctx):
-    n = 90 if ctx['tier'] == 'quick' else 500
+    n = (90 * ctx.get('boost', 1)) if ctx['tier'] == 'quick' else 500
     lines, rows = partprop.lookup_rows()
     lv = vlib.run_shards('C16l', partprop.PART_IMPORTS, 'Z * list float', 'lookup_verdict', lines, per_shard=max(10, len(lines) // 8 + 1))
     failures = []
